@@ -112,7 +112,7 @@ static std::string scenarioCase(const std::string& prop, size_t idx, const vp::E
 typedef std::function<std::vector<Monitor*>(World&, VSink*)> MonFactory;
 
 static void runScenario(const std::string& prop, size_t idx, const Scenario& sc, const Bounds& b,
-                        const MonFactory& mf, const std::vector<uint16_t>* replay) {
+                        const MonFactory& mf, const std::vector<uint16_t>* replay, int slice = 0) {
   vp::Explorer ex;
   ex.budget[K_DEV] = sc.k + b.dev; ex.budget[K_CHUNK] = sc.c + b.chunk; ex.budget[K_REQ] = sc.r;
   ex.useHash = replay == nullptr;
@@ -150,14 +150,15 @@ static void runScenario(const std::string& prop, size_t idx, const Scenario& sc,
   ex.explore([&](vp::Explorer& e) {
     body(e);
     if ((e.executions & 0x3ff) == 0 && R.expired()) e.stopAll = true;
-  });
+  }, slice, sc.slices);
+  if (getenv("VERIF_VERBOSE")) fprintf(stderr, "%s: %llu executions, %zu states, %.1fs\n", sc.name.c_str(), (unsigned long long)ex.executions, ex.visited.size(), vp::rawNow() - R.t0);
   R.evaluations += ex.executions;
   R.tracesValidated += ex.executions;
   R.count("choice_points", ex.choicePoints);
   R.count("pruned_runs", ex.pruned);
   for (uint64_t h : ex.visited) R.stateSet.insert(h ^ (idx * 0x9E3779B97F4A7C15ULL));
   if (ex.collectOnly) R.count("stateless_scenarios", 1);
-  if (validateHash && replay == nullptr) {
+  if (validateHash && replay == nullptr && sc.slices == 1) {
     // fingerprint validation: the pruned search must visit exactly the states the unpruned search visits
     validateHash = false;
     std::unordered_set<uint64_t> pruned = ex.visited;
@@ -171,7 +172,8 @@ static void runScenario(const std::string& prop, size_t idx, const Scenario& sc,
     for (auto& v : R.violations) sig1.insert(v.first);
     std::unordered_map<uint64_t, std::string> paths;
     if (getenv("VERIF_DEBUG_HASH")) ex2.debugPaths = &paths;
-    ex2.explore([&](vp::Explorer& e) { body(e); });
+    ex2.explore([&](vp::Explorer& e) { body(e); if ((e.executions & 0x3ff) == 0 && R.expired()) e.stopAll = true; });
+    if (ex2.stopAll) { R = saved; R.cap("hash validation cut by deadline"); validateHash = true; return; }
     if (ex2.debugPaths) {
       int n = 0;
       for (auto& kv : paths) if (!pruned.count(kv.first) && n++ < 5) fprintf(stderr, "state only in unpruned search reached by: sc=%zu;ch=%s\n", idx, kv.second.c_str());
@@ -190,6 +192,142 @@ static void runScenario(const std::string& prop, size_t idx, const Scenario& sc,
   }
 }
 
+
+// ---- C02 / C03 ----
+// behaviour of the addressed participant after ebusd won arbitration
+// variant: 0 conformant, 1 NAK then ACK, 2 NAK NAK, 3 response bad CRC then good, 4 bad twice
+static Script responder(const Bytes& master, const Bytes& resp, int variant) {
+  int n1 = (int)ref::wirePart(master).size() - 1;  // symbols after QQ incl. CRC
+  uint8_t zz = master[1];
+  Script s;
+  s.push_back(await(n1));
+  if (zz == ref::BROADCAST) { s.push_back(await(1)); return s; }
+  if (variant == 1 || variant == 2) {
+    s.push_back(send(Bytes{ref::NAK}));
+    s.push_back(await(n1 + 1));
+    if (variant == 2) { s.push_back(send(Bytes{ref::NAK})); return s; }
+  }
+  if (ref::isMaster(zz)) { s.push_back(send(Bytes{ref::ACK})); s.push_back(await(1)); return s; }
+  if (variant == 3 || variant == 4) {
+    s.push_back(send(cat(Bytes{ref::ACK}, ref::wirePart(resp, 0x01))));
+    s.push_back(await(1));  // NAK expected
+    s.push_back(send(ref::wirePart(resp, variant == 4 ? 0x01 : 0)));
+  } else {
+    s.push_back(send(cat(Bytes{ref::ACK}, ref::wirePart(resp))));
+  }
+  s.push_back(await(1));  // ACK (or NAK)
+  s.push_back(await(1));  // SYN
+  return s;
+}
+struct RQ { const char* m; const char* s; };
+static std::vector<RQ> requestCatalogue(bool full) {
+  std::vector<RQ> v = {
+    {"31feb505022700", ""},            // BC
+    {"3110b51101a9", ""},              // MM, data needs escape
+    {"3108b509030daa00", "02a955"},    // MS, escapes both ways
+    {"3115070400", "00"},              // MS, no data
+  };
+  if (full) {
+    v.push_back({"31fe07ff00", ""});
+    v.push_back({"3108b5091000a9aaa9aaa9aaa9aaa9aaa9aaa9aa01", "10aaa9aaa9aaa9aaa9aaa9aaa9aaa9aaa9"});
+    v.push_back({"3130b5100155", ""});
+    v.push_back({"31f6b5040100", "0a0102030405060708090a"});
+  }
+  return v;
+}
+static std::vector<Scenario> scenariosC02(bool thorough, const vp::Args& A) {
+  std::vector<Scenario> v;
+  std::vector<RQ> rq = requestCatalogue(thorough);
+  // master CRC equal to A9 / AA
+  Bytes crcA9 = withCrc(ref::unhex("3108b5090200ff"), 5, 0xA9), crcAA = withCrc(ref::unhex("3108b5090200ff"), 5, 0xAA);
+  for (int enh = 0; enh < 2; enh++) {
+    for (size_t qi = 0; qi < rq.size() + 2; qi++) {
+      Bytes m = qi < rq.size() ? ref::unhex(rq[qi].m) : (qi == rq.size() ? crcA9 : crcAA);
+      Bytes r = qi < rq.size() ? ref::unhex(rq[qi].s) : withCrc(ref::unhex("0200ff"), 1, qi == rq.size() ? 0xAA : 0xA9);
+      bool slaveDst = m[1] != ref::BROADCAST && !ref::isMaster(m[1]);
+      int nvar = m[1] == ref::BROADCAST ? 1 : (slaveDst ? 5 : 3);
+      for (int var = 0; var < nvar; var++) {
+        for (int retr = 0; retr < 2; retr++) {
+          if (retr == 1 && var != 0 && !thorough) continue;
+          Scenario s;
+          s.enhanced = enh;
+          s.busLostRetries = retr ? 0 : 2;
+          ReqSpec q;
+          q.master = m;
+          q.responder = responder(m, r, var);
+          q.resubmits = retr;   // the waiter re-submits once after an error when retr==1
+          s.reqs.push_back(q);
+          s.tailSyns = 2;
+          s.k = (var == 0 || thorough) ? 2 : 1;
+          if (qi >= rq.size() && !thorough) s.k = 1;
+          s.c = 1;
+          s.name = std::string(enh ? "enh" : "plain") + "/req" + std::to_string(qi) + "/resp" + std::to_string(var) + "/retr" + std::to_string(retr) + "/k" + std::to_string(s.k);
+          v.push_back(s);
+        }
+      }
+    }
+    // data sweep: NN=1, all 256 data values, three destination kinds, conformant participant, k=0 (thorough k=1)
+    const uint8_t dsts[3] = {0xFE, 0x10, 0x08};
+    for (int d = 0; d < 3; d++) for (int val = 0; val < 256; val++) {
+      Scenario s;
+      s.enhanced = enh;
+      ReqSpec q;
+      q.master = Bytes{0x31, dsts[d], 0xb5, 0x09, 0x01, (uint8_t)val};
+      q.responder = responder(q.master, Bytes{0x01, (uint8_t)(255 - val)}, 0);
+      s.reqs.push_back(q);
+      s.tailSyns = 1;
+      s.k = thorough ? 1 : 0; s.c = 0;
+      s.name = std::string(enh ? "enh" : "plain") + "/sweep/dst" + std::to_string(d) + "/val" + std::to_string(val);
+      v.push_back(s);
+    }
+  }
+  return v;
+}
+
+static std::vector<Scenario> scenariosC03(bool thorough, const vp::Args& A) {
+  std::vector<Scenario> v;
+  struct C3 { uint8_t own; bool readOnly, genSyn; unsigned lockCount, busLost; };
+  std::vector<C3> cfgs = {
+    {0x31, false, false, 0, 2}, {0x31, true, false, 0, 2}, {0x31, false, true, 0, 1}, {0xFF, false, false, 3, 0},
+    {0x03, false, false, 5, 3}, {0x31, false, true, 5, 0},
+  };
+  if (!thorough) cfgs.resize(4);
+  Tel foreignMS = mk("1008b509020d00", "015a"), foreignBC = mk("10fe070400");
+  for (int enh = 0; enh < 2; enh++) {
+    for (size_t ci = 0; ci < cfgs.size(); ci++) {
+      for (int shape = 0; shape < (thorough ? 5 : 4); shape++) {
+        Scenario s;
+        s.enhanced = enh;
+        s.own = cfgs[ci].own; s.readOnly = cfgs[ci].readOnly; s.genSyn = cfgs[ci].genSyn;
+        s.lockCount = cfgs[ci].lockCount; s.busLostRetries = cfgs[ci].busLost;
+        s.winnerTelegram = Script{send(ref::wirePart(ref::unhex("fe070400")))};  // rest of a broadcast by the winner (its QQ was the collision symbol)
+        // winner telegram CRC must include the winner's QQ which varies; it is deliberately "some traffic"
+        Bytes m1 = {s.own, 0x08, 0xb5, 0x09, 0x01, 0x0d}, m2 = {s.own, 0xfe, 0x07, 0x04, 0x00}, m3 = {s.own, 0x10, 0xb5, 0x10, 0x01, 0xa9};
+        auto addReq = [&](const Bytes& m, const Bytes& r, bool late) {
+          ReqSpec q; q.master = m; q.responder = responder(m, r, 0); q.late = late; s.reqs.push_back(q);
+        };
+        switch (shape) {
+          case 0: addReq(m1, Bytes{0x01, 0x5a}, false); break;                       // one request queued from the start
+          case 1: addReq(m1, Bytes{0x01, 0x5a}, true); s.foreign.push_back(telScript(foreignMS)); s.r = 1; break;  // arrives at any moment during foreign traffic
+          case 2: addReq(m2, Bytes{}, false); addReq(m3, Bytes{}, false); s.foreign.push_back(telScript(foreignBC)); break;
+          case 3: addReq(m1, Bytes{0x01, 0x5a}, true); addReq(m2, Bytes{}, true); s.r = 2; break;
+          case 4: addReq(m1, Bytes{0x01, 0x5a}, true); addReq(m2, Bytes{}, true); addReq(m3, Bytes{}, true); s.foreign.push_back(telScript(foreignMS)); s.r = 3; break;
+        }
+        s.tailSyns = 4;
+        s.k = (shape <= 1 || thorough) ? 2 : 1;
+        if (shape == 1 && ci > 0 && !thorough) s.k = 1;
+        if (thorough && shape == 0) s.k = 3;
+        if (s.k + s.r >= 3) s.slices = 16;
+        if (s.k + s.r >= 4) s.slices = 64;
+        s.c = 1;
+        s.name = std::string(enh ? "enh" : "plain") + "/cfg" + std::to_string(ci) + "/shape" + std::to_string(shape) + "/k" + std::to_string(s.k);
+        v.push_back(s);
+      }
+    }
+  }
+  return v;
+}
+
 // ---- C01 ----
 static std::vector<Scenario> scenariosC01(bool thorough, const vp::Args& A) {
   std::vector<Scenario> v;
@@ -205,6 +343,7 @@ static std::vector<Scenario> scenariosC01(bool thorough, const vp::Args& A) {
         s.k = (thorough || ci == 0 || ci == 5) ? 2 : 1;
         if (thorough && ci == 0 && ti < 12) s.k = 3;
         s.c = thorough ? 2 : 1;
+        if (s.k >= 3) s.slices = 32;
         s.name = std::string(enh ? "enh" : "plain") + "/cfg" + std::to_string(ci) + "/tel" + std::to_string(ti) + "/k" + std::to_string(s.k);
         v.push_back(s);
       }
@@ -220,6 +359,7 @@ static std::vector<Scenario> scenariosC01(bool thorough, const vp::Args& A) {
         s.gapSyns = 1 + (int)((a + bb) & 1);
         s.k = (thorough || ci == 0) ? 2 : 1;
         s.c = 1;
+        if (s.k >= 2) s.slices = 8;
         s.name = std::string(enh ? "enh" : "plain") + "/cfg" + std::to_string(ci) + "/pair" + std::to_string(a + 1) + "-" + std::to_string(bb + 2);
         v.push_back(s);
       }
@@ -249,10 +389,16 @@ int main(int argc, char** argv) {
   std::vector<Scenario> scs;
   Bounds b{0, 0, 0, true};
   MonFactory mf;
+  b = Bounds{(int)A.getInt("dk", 0), (int)A.getInt("dc", 0), 0, A.getInt("hash", 1) != 0};
   if (prop == "C01") {
     scs = scenariosC01(th, A);
-    b = Bounds{(int)A.getInt("dk", 0), (int)A.getInt("dc", 0), 0, A.getInt("hash", 1) != 0};
     mf = [](World& w, VSink* s) { return std::vector<Monitor*>{new RecvMonitor(s)}; };
+  } else if (prop == "C02") {
+    scs = scenariosC02(th, A);
+    mf = [](World& w, VSink* s) { return std::vector<Monitor*>{new ActiveMonitor(s, w.sc, true, false)}; };
+  } else if (prop == "C03") {
+    scs = scenariosC03(th, A);
+    mf = [](World& w, VSink* s) { return std::vector<Monitor*>{new ActiveMonitor(s, w.sc, false, true)}; };
   } else {
     fprintf(stderr, "unknown --prop %s\n", prop.c_str());
     return 2;
@@ -262,11 +408,16 @@ int main(int argc, char** argv) {
     runScenario(prop, rsc, scs[rsc], b, mf, &rchoices);
     return replayViolated ? 1 : 0;
   }
-  for (size_t i = 0; i < scs.size(); i++) {
-    if ((int)(i % A.nparts) != A.part) continue;
+  // work units: big scenarios are sliced; units are dealt round-robin, biggest first
+  std::vector<std::pair<size_t, int>> units;
+  for (size_t i = 0; i < scs.size(); i++) if (scs[i].slices > 1) for (int j = 0; j < scs[i].slices; j++) units.push_back(std::make_pair(i, j));
+  for (size_t i = 0; i < scs.size(); i++) if (scs[i].slices <= 1) units.push_back(std::make_pair(i, 0));
+  for (size_t u = 0; u < units.size(); u++) {
+    if ((int)(u % A.nparts) != A.part) continue;
     if (R.expired()) break;
-    validateHash = validateEvery > 0 && (long)(i / A.nparts) % validateEvery == 0 && scs[i].k <= validateMaxK;
-    runScenario(prop, i, scs[i], b, mf, nullptr);
+    size_t i = units[u].first;
+    validateHash = validateEvery > 0 && (long)(u / A.nparts) % validateEvery == 0 && scs[i].k + scs[i].r <= validateMaxK;
+    runScenario(prop, i, scs[i], b, mf, nullptr, units[u].second);
     if (R.samples.size() < 3) R.sample("scenario " + scs[i].name + ": foreign=" + (scs[i].foreign.empty() ? "" : ref::hex(scs[i].foreign[0][0].bytes)));
   }
   R.count("scenarios", 0);
